@@ -26,8 +26,30 @@ CliIn(cmd) ==
       spec == IF "doc" \in DOMAIN cmd.inp THEN [doc |-> cmd.inp.doc]
               ELSE IF "hex" \in DOMAIN cmd.inp THEN [hex |-> cmd.inp.hex] ELSE [hex |-> ""]
   IN  IF cmd.chan = "file" THEN base @@ [files |-> [in |-> spec]]
-      ELSE IF cmd.chan = "stdin" THEN base @@ [stdin |-> spec]
+      ELSE IF cmd.chan = "fifo" THEN base @@ [fifos |-> [in |-> spec]]
+      ELSE IF cmd.chan \in {"stdin", "devstdin"} THEN base @@ [stdin |-> spec]
       ELSE base
+\* the four ways of handing bytes to a command
+Chans4 == <<"file", "stdin", "fifo", "devstdin">>
+ChanNo(k) == Chans4[1 + (k % 4)]
+
+\* ---- content that text tools treat specially ------------------------------------------------
+\* Byte strings with a prefix or suffix that editors, shells, terminals or lenient readers strip, translate or
+\* interpret: byte order marks, hex / option / comment / JSON lead-ins, line ends, NUL, end-of-file control
+\* characters, the EIP-191 prefix itself.  For the commands that work on raw bytes (hash data, hash / sign message,
+\* hex encode) every byte counts.
+MagicPre == <<<<>>, <<239, 187, 191>>, <<255, 254>>, <<254, 255>>, <<239, 187, 191, 239, 187, 191>>, <<48, 120>>, <<48, 88>>, <<10>>, <<13, 10>>,
+              <<32>>, <<9>>, <<35, 33>>, <<35>>, <<64>>, <<45>>, <<45, 45>>, <<34>>, <<123>>, <<91>>, <<0>>, <<31, 139>>, <<37>>, <<27, 91>>, <<92>>,
+              <<25>> \o StrToUtf8("Ethereum Signed Message:\n5"), <<194, 160>>, <<226, 128, 139>>>>
+MagicSuf == <<<<10>>, <<13, 10>>, <<13>>, <<32>>, <<0>>, <<26>>, <<4>>, <<239, 187, 191>>, <<10, 10>>, <<92>>>>
+MagicBodies == <<StrToUtf8("hello"), <<>>, StrToUtf8("0x68656c6c6f"), <<104, 233, 108, 108, 111, 255>>>>
+NMagic == Len(MagicPre) + Len(MagicSuf)
+\* k in 0..NMagic*Len(MagicBodies)-1 : content number k
+MagicContent(k) ==
+  LET b == MagicBodies[1 + (k \div NMagic)]
+      m == k % NMagic
+  IN  IF m < Len(MagicPre) THEN MagicPre[m + 1] \o b ELSE b \o MagicSuf[m - Len(MagicPre) + 1]
+NMagicContents == NMagic * Len(MagicBodies)
 \* An ambient environment: variables a user's shell may well contain, among them the upper-snake-case names of
 \* every long option that is NOT specified to be read from the environment.  Only MNEMONIC, PASSWORD,
 \* ACCOUNT_INDEX and HD_PATH mean anything to the tool (Wallet!EnvOf); everything else must change nothing.
